@@ -162,12 +162,7 @@ structure ObsRel (σ : Sigma) (o o' : Obs) : Prop where
   val   : o'.val = o.val
   panic : o'.panic = o.panic
 
-/-- the side condition of the shift theorem (see `fastSafe`): only `Input` has one -/
-def opSafe (k : Kcp) : Op → Bool
-  | .input data regular _ _ => inputSafe k data regular
-  | _ => true
-
-theorem step_sim {σ : Sigma} {k k' : Kcp} (h : Sim σ k k') (op : Op) (hs : opSafe k op = true) :
+theorem step_sim {σ : Sigma} {k k' : Kcp} (h : Sim σ k k') (op : Op) :
     Sim σ (step k op).1 (step k' (shiftOp σ op)).1 ∧ ObsRel σ (step k op).2 (step k' (shiftOp σ op)).2 := by
   cases op with
   | send buf =>
@@ -182,7 +177,7 @@ theorem step_sim {σ : Sigma} {k k' : Kcp} (h : Sim σ k k') (op : Op) (hs : opS
     simp only [step, shiftOp]
     exact ⟨h, ⟨peekSize_sim h, rfl, All₂.nil, rfl, rfl, rfl⟩⟩
   | input data regular ackNoDelay now =>
-    have r := input_sim h data regular ackNoDelay now hs
+    have r := input_sim h data regular ackNoDelay now
     simp only [step, shiftOp]
     exact ⟨r.k, ⟨r.ret, rfl, r.outs, rfl, rfl, r.panic⟩⟩
   | flush full now =>
@@ -220,19 +215,14 @@ def run (k : Kcp) : List Op → Kcp × List Obs
   | [] => (k, [])
   | op :: rest => ((run (step k op).1 rest).1, (step k op).2 :: (run (step k op).1 rest).2)
 
-def runSafe (k : Kcp) : List Op → Bool
-  | [] => true
-  | op :: rest => opSafe k op && runSafe (step k op).1 rest
-
-theorem run_sim {σ : Sigma} {k k' : Kcp} (h : Sim σ k k') (ops : List Op) (hs : runSafe k ops = true) :
+theorem run_sim {σ : Sigma} {k k' : Kcp} (h : Sim σ k k') (ops : List Op) :
     Sim σ (run k ops).1 (run k' (ops.map (shiftOp σ))).1 ∧
       All₂ (ObsRel σ) (run k ops).2 (run k' (ops.map (shiftOp σ))).2 := by
   induction ops generalizing k k' with
   | nil => exact ⟨h, All₂.nil⟩
   | cons op rest ih =>
-    simp only [runSafe, Bool.and_eq_true] at hs
-    obtain ⟨s1, s2⟩ := step_sim h op hs.1
-    obtain ⟨r1, r2⟩ := ih s1 hs.2
+    obtain ⟨s1, s2⟩ := step_sim h op
+    obtain ⟨r1, r2⟩ := ih s1
     exact ⟨r1, All₂.cons s2 r2⟩
 
 end KcpVerif.Shift
